@@ -22,6 +22,7 @@ func init() {
 
 func runC29(c *Ctx) {
 	u, r := c.U, c.R
+	seedfixC29(c)
 	// ---- R-LOCK-PAIR (call sites)
 	r.Floor("R-LOCK-PAIR", 5)
 	for _, name := range []string{"(*HttpServer).handleUnary", "(*HttpServer).handleStreamInit", "(*HttpServer).handleStreamExchange"} {
